@@ -43,9 +43,13 @@ pub(crate) fn start_flusher_thread(
         let (_sender, receiver): (Sender<()>, Receiver<()>) = channel();
         loop {
             receiver.recv_timeout(flush_interval).ok();
-            primary_writer.flush().ok();
+            primary_writer.flush().unwrap_or_else(|e| {
+                crate::util::eprint_err(crate::util::ErrorCode::Flush, "flushing failed", &e)
+            });
             for w in other_writers.values() {
-                w.flush().ok();
+                w.flush().unwrap_or_else(|e| {
+                    crate::util::eprint_err(crate::util::ErrorCode::Flush, "flushing failed", &e)
+                });
             }
         }
     })?;
